@@ -192,3 +192,190 @@ class SpaPeer:
 
     def stop(self) -> None:
         self.engine.stop()
+
+
+# ---------------------------------------------------------------------------------------------------
+# ModelSpa: application semantics the bundled simulator lacks (harness model; codecs are the repo's)
+# ---------------------------------------------------------------------------------------------------
+_MODEL_CLS = None
+
+
+def model_spa_class():
+    global _MODEL_CLS
+    if _MODEL_CLS is not None:
+        return _MODEL_CLS
+    from geckolib.const import GeckoConstants
+    from geckolib.driver import (GeckoPackCommandProtocolHandler, GeckoPacketProtocolHandler,
+                                 GeckoPartialStatusBlockProtocolHandler, GeckoWatercareProtocolHandler)
+    from geckolib.utils.simulator import GeckoSimulator
+
+    class SetWcHandler(GeckoPacketProtocolHandler):
+        def can_handle(self, received_bytes, sender):
+            return received_bytes.startswith(b"SETWC")
+
+        def handle(self, received_bytes, sender):
+            self.raw = received_bytes
+            self.seq, self.mode = struct.unpack(">BB", received_bytes[5:7])
+
+    class ModelSpa(GeckoSimulator):
+        """GeckoSimulator + a model of what a spa does with commands."""
+
+        def __init__(self, first_commands=None):
+            super().__init__(first_commands)
+            self.watercare_mode = 1
+            self.commands: List[Dict[str, Any]] = []      # every SPACK / SETWC that reached the spa
+            self.mirror_demand = True
+            self.echo = True
+            self.silent_verbs: set = set()
+            self._peer = None
+            self._setwc = SetWcHandler(on_handled=self._on_setwc)
+            self._socket.add_receive_handler(self._setwc)
+            for h in self._socket._receive_handlers:
+                if isinstance(h, GeckoPackCommandProtocolHandler):
+                    orig = h.handle
+
+                    def handle(b, s, orig=orig, h=h):
+                        h.raw = b
+                        return orig(b, s)
+                    h.handle = handle
+
+        def attach(self, peer) -> None:
+            self._peer = peer
+
+        def _now(self) -> float:
+            return self._peer.engine.loop.clock.peek() if self._peer is not None else 0.0
+
+        def _should_ignore(self, handler, sender, respect_rferr=True):
+            for v in self.silent_verbs:
+                if getattr(handler, "raw", b"").startswith(v) or type(handler).__name__ == v:
+                    return True
+            return super()._should_ignore(handler, sender, respect_rferr)
+
+        # -- watercare ---------------------------------------------------------------------------------
+        def _on_watercare(self, handler, sender):
+            if self._should_ignore(handler, sender):
+                return
+            if handler.schedule:
+                self._socket.queue_send(GeckoWatercareProtocolHandler.giveschedule(parms=sender), sender)
+            else:
+                self._socket.queue_send(GeckoWatercareProtocolHandler.response(self.watercare_mode, parms=sender), sender)
+
+        def _on_setwc(self, handler, sender):
+            if self._should_ignore(handler, sender):
+                return
+            self.commands.append({"t": self._now(), "kind": "setwc", "raw": handler.raw, "seq": handler.seq,
+                                  "mode": handler.mode, "sender": sender})
+            self.watercare_mode = handler.mode
+            self._socket.queue_send(
+                GeckoPacketProtocolHandler(content=b"WCSET" + bytes([handler.mode & 0xFF]), parms=sender), sender)
+
+        # -- pack commands -----------------------------------------------------------------------------
+        def _on_pack_command(self, handler, sender):
+            if self._should_ignore(handler, sender):
+                return
+            self._socket.queue_send(GeckoPackCommandProtocolHandler.response(parms=sender), sender)
+            raw = getattr(handler, "raw", b"")
+            rec = {"t": self._now(), "kind": "spack", "raw": raw, "sender": sender,
+                   "before": self.structure.status_block}
+            self.commands.append(rec)
+            if len(self.commands) > 1 and self.commands[-2].get("raw") == raw and self.commands[-2]["kind"] == "spack":
+                # a retransmission of the same command (same sequence byte): idempotent, do not re-apply
+                rec["dup"] = True
+                return
+            # independent decode of the SPACK layout (does not use the handler's decoded fields)
+            if len(raw) >= 9 and raw[8] == 57:            # key press: SPACK seq type len(2) 57 key
+                key = raw[9] if len(raw) > 9 else None
+                rec.update(cmd="key", key=key)
+                self.apply_key(key)
+            elif len(raw) >= 9 and raw[8] == 70:          # set value: SPACK seq type len 70 cfg log pos:2 data
+                pos = struct.unpack(">H", raw[11:13])[0]
+                data = raw[13:]
+                rec.update(cmd="set", pos=pos, data=data)
+                self.apply_write(pos, data)
+
+        def apply_write(self, pos: int, data: bytes) -> None:
+            if pos + len(data) > 1024 or not data:
+                return
+            changes = [(pos, data)]
+            self.structure.replace_status_block_segment(pos, data)
+            if self.mirror_demand:
+                changes += self._mirror(pos, len(data))
+            if self.echo:
+                self.emit_statp(changes)
+
+        def _mirror(self, pos: int, length: int):
+            """Demand -> state: a pump whose user demand was written starts/stops (UdP1 -> P1 ...)."""
+            out = []
+            acc = self.structure.accessors
+            for key, a in acc.items():
+                if not key.startswith("Ud") or a.pos + a.length <= pos or a.pos >= pos + length:
+                    continue
+                dev = key[2:]
+                state = None
+                for cand in (dev, dev.upper(), dev.capitalize()):
+                    if cand in acc and cand != key:
+                        state = acc[cand]
+                        break
+                if state is None or state.type != "Enum" or a.type != "Enum":
+                    continue
+                val = a.value
+                if val in state.items:
+                    before = self.structure.status_block
+                    try:
+                        self._send_structure_change = False
+                        state.value = val
+                    except Exception:
+                        continue
+                    after = self.structure.status_block
+                    if after != before:
+                        out.append((state.pos, after[state.pos:state.pos + state.length]))
+            return out
+
+        def apply_key(self, key) -> None:
+            acc = self.structure.accessors
+            for dev, props in GeckoConstants.DEVICES.items():
+                if props[1] == key and props[2] in acc:
+                    a = acc[props[2]]
+                    before = self.structure.status_block
+                    try:
+                        self._send_structure_change = False
+                        if a.type == "Bool":
+                            a.value = not a.value
+                        elif a.type == "Enum":
+                            cur = a.value
+                            if cur == "OFF":
+                                nxt = [i for i in a.items if i not in ("OFF", "")]
+                                if not nxt:
+                                    return
+                                a.value = nxt[0]
+                            else:
+                                a.value = "OFF"
+                    except Exception:
+                        return
+                    after = self.structure.status_block
+                    if after != before and self.echo:
+                        self.emit_statp([(a.pos, after[a.pos:a.pos + a.length])])
+                    return
+
+        # -- unsolicited traffic ---------------------------------------------------------------------------
+        def emit_statp(self, changes, clients=None) -> None:
+            for client in (clients if clients is not None else list(self._clients)):
+                self._socket.queue_send(
+                    GeckoPartialStatusBlockProtocolHandler.report_changes(self._socket, changes, parms=client), client)
+            if self._peer is not None:
+                self._peer.kick()
+
+        def emit_raw(self, content: bytes, clients=None) -> None:
+            for client in (clients if clients is not None else list(self._clients)):
+                self._socket.queue_send(GeckoPacketProtocolHandler(content=content, parms=client), client)
+            if self._peer is not None:
+                self._peer.kick()
+
+        def reboot(self, new_block: Optional[bytes] = None) -> None:
+            self._clients = []
+            self._socket._send_handlers[:] = []
+            if new_block is not None:
+                self.structure.set_status_block(new_block)
+
+    _MODEL_CLS = ModelSpa
+    return ModelSpa
